@@ -14,7 +14,9 @@ fn build_one<T: Tier, A>(ctx: &mut Ctx, e: Euler<A>, cx: (T::M, T::M), cy: (T::M
 where
     A: Angle<Unitless = T> + Into<Rad<T>> + Copy,
 {
-    let want = model::euler_mat(cx, cy, cz);
+    // entries of a rotation matrix are sums of O(1) terms: a route through half angles (the quaternion) knows them to an
+    // absolute, not a relative, rounding
+    let want = model::euler_mat(cx, cy, cz).map(|c| c.map(|x| x.with_abs_err(4.0)));
     let (rx, ry, rz): (Rad<T>, Rad<T>, Rad<T>) = (e.x.into(), e.y.into(), e.z.into());
     let m3e: Matrix3<T> = Matrix3::from(e);
     eq_mc::<T, 3>(ctx, &key("from_euler/Matrix3"), m3(m3e), want, slack);
@@ -43,7 +45,9 @@ where
         eq_mc::<T, 3>(ctx, &key("from_euler/Quaternion"), m3(qm), want, slack * 4.0);
         eq_mc::<T, 3>(ctx, &key("product/Quaternion"), m3(pm), want, slack * 4.0);
         if T::EXACT {
-            same_slice(ctx, &key("from_euler=product/Quaternion"), &qa(q), &qa(pq));
+            // the same rotation as a quaternion: q or -q (the statement speaks of the rotation)
+            let neg = qa(pq).map(|x| -x);
+            ctx.check(qa(q) == qa(pq) || qa(q) == neg, &key("from_euler=product/Quaternion"), || format!("Quaternion::from(Euler) = {:?}, product of the axis rotations = +-{:?}", qa(q), qa(pq)));
         }
     }
 }
@@ -122,12 +126,12 @@ fn float_build<T: Tier + Dom<M = Sh>>(rep: &mut Report) {
     let mut grid: Vec<f64> = (0..n).map(|j| -3.3 + 6.6 * j as f64 / (n - 1) as f64).collect();
     // angles of more than a half and more than a full turn: "for all angles", and the half-angle formulas of the
     // quaternion change sign there
-    grid.extend([4.0, -4.0, 7.0, -7.0, 9.5, -13.0]);
+    grid.extend([4.0, -4.0, 7.0, -7.0, 9.5, -13.0, 2e-3, -1e-6]);
     let n = grid.len();
     rep.cases(
         "build/native",
         T::NAME,
-        &format!("{n}^3 angle triples on [-3.3, 3.3] rad and from {{+-4, +-7, 9.5, -13}} rad, as Rad and as Deg"),
+        &format!("{n}^3 angle triples on [-3.3, 3.3] rad and from {{+-4, +-7, 9.5, -13, 2e-3, -1e-6}} rad, as Rad and as Deg"),
         n * n * n * 2,
         Guard::states(100).distinct(100),
         |i, ctx| {
@@ -163,9 +167,12 @@ fn mat_of_q(q: [f64; 4]) -> [[f64; 3]; 3] {
 
 fn float_extract<T: Tier + Dom<M = Sh>>(rep: &mut Report) {
     // quaternions from Euler grids with prescribed sin(y), plus the rational unit quaternions
-    let sines: Vec<f64> = [0.0, 0.5, 0.99, 0.9979, 0.99799, 0.997998, 0.998002, 0.99801, 0.9981, 0.999, 1.0].iter().flat_map(|s| [*s, -*s]).skip(1).collect();
+    let sines: Vec<f64> = [0.0, 1e-6, 3e-3, 0.5, 0.99, 0.9979, 0.99799, 0.997998, 0.998002, 0.99801, 0.9981, 0.999, 1.0].iter().flat_map(|s| [*s, -*s]).skip(1).collect();
     let nxz = rep.pick(9, 21);
-    let xz: Vec<f64> = (0..nxz).map(|j| -3.0 + 6.0 * j as f64 / (nxz - 1) as f64).collect();
+    let mut xz: Vec<f64> = (0..nxz).map(|j| -3.0 + 6.0 * j as f64 / (nxz - 1) as f64).collect();
+    // small rotations (a "nearly the identity" short cut, a first-order formula)
+    xz.extend([5e-3, -1e-4, 1e-7]);
+    let nxz = xz.len();
     let uq = alphabet::uq(1);
     let n1 = sines.len() * nxz * nxz;
     rep.cases(
@@ -212,7 +219,8 @@ fn float_extract<T: Tier + Dom<M = Sh>>(rep: &mut Report) {
             let rebuilt: Matrix3<T> = Matrix3::from(e);
             let rb = m3(rebuilt);
             let want = mat_of_q(qf);
-            let maxdiff = (0..3).flat_map(|c| (0..3).map(move |r| (c, r))).map(|(c, r)| (rb[c][r].f() - want[c][r]).abs()).fold(0.0, f64::max);
+            let maxdiff = (0..3).flat_map(|c| (0..3).map(move |r| (c, r))).map(|(c, r)| (rb[c][r].f() - want[c][r]).abs()).fold(0.0, |m: f64, x: f64| if x.is_nan() || m.is_nan() { f64::NAN } else { m.max(x) });
+            ctx.check(ex_.is_finite() && ey.is_finite() && ez.is_finite() && !maxdiff.is_nan(), &key("extract/finite"), || format!("extracted angles ({ex_}, {ey}, {ez}) of the finite unit quaternion are not all finite"));
             match class {
                 "general" => {
                     let cosy = (1.0 - siny * siny).max(0.0).sqrt().max(1e-3);
